@@ -1060,3 +1060,7 @@ M("c10-fixed-order-only-without-bend-order", "C10", "cola/libavoid/orthogonal.cp
   mention=["FIXED-ORDER-BEFORE-BEND-ORDER"])
 MUTANTS.append({"id": "c09-neutral-rectangle-count-renamed", "prop": "C09", "expect": "silent", "mention": [], "tu": None, "edits": [
     {"file": "cola/libvpsc/rectangle.cpp", "old": "    unsigned n=rs.size();\n    try {\n        // The extra gap avoids numerical imprecision problems\n        Rectangle::setXBorder(xBorder+EXTRA_GAP);\n        Rectangle::setYBorder(yBorder+EXTRA_GAP);\n        Variables vs(n);\n        Variables::iterator v;\n        unsigned i=0;\n        vector<double> initX(thirdPass?n:ARRAY_UNUSED);", "new": "    unsigned count=rs.size();\n    unsigned n=count;\n    try {\n        // The extra gap avoids numerical imprecision problems\n        Rectangle::setXBorder(xBorder+EXTRA_GAP);\n        Rectangle::setYBorder(yBorder+EXTRA_GAP);\n        Variables vs(count);\n        Variables::iterator v;\n        unsigned i=0;\n        vector<double> initX(thirdPass?count:ARRAY_UNUSED);", "count": 1}]})
+
+# ---------------------------------------------------------------- round l
+M("c17-ideal-length-rounded-up", "C17", "cola/libcola/colafd.cpp",
+  "      m_idealEdgeLength(idealLength),", "      m_idealEdgeLength(idealLength < 1 ? 1 : idealLength),", mention=["IDEAL-LENGTH-AS-GIVEN"])
